@@ -44,7 +44,7 @@ def random_log(rng, nmax=12, nsrc=None, base8=None, types=None, untimed_prob=0.4
     nsrc = nsrc or rng.choice([1, 1, 2, 3])
     srcs = rng.sample([0, 1, 2, 5, 7], nsrc)
     if base8 is None:
-        base8 = rng.choice([0, 8, 80, 83, 84, 8 * 1000, 8 * 1000 + 5])
+        base8 = rng.choice([0, 8, 80, 83, 84, 87, 8 * 1000, 8 * 1000 + 5, 8 * (2 ** 24) + 5, 8 * 1300000000 + 3])
     types = types or (rng.sample(TIMED, rng.randint(1, 3)) + rng.sample(UNTIMED, rng.randint(0, 3)))
     timed = [t for t in types if t in TIMED]
     untimed = [t for t in types if t in UNTIMED]
@@ -81,6 +81,12 @@ def fixed_logs():
         [['m', P, 0, 80]],
         [['m', E, 0, None]],
         [['m', P, 0, 16], ['m', P, 0, 16], ['m', E, 0, None], ['m', P, 0, 16], ['m', P, 0, 24], ['m', P, 0, 24]],
+        # first P1 time fractional (10.625 s), messages every half second, untimed messages of two types in between
+        [['m', E, 0, None], ['m', P, 0, 85], ['m', E, 1, None], ['m', G, 0, 89], ['m', UNK1, 0, None], ['m', P, 1, 93], ['m', E, 0, None],
+         ['m', P, 0, 97], ['m', G, 1, 101], ['m', UNK1, 1, None], ['m', P, 0, 105], ['m', E, 1, None], ['m', P, 0, 109]],
+        # large messages: > 1 KiB, 4 KiB, 16 383 and 16 384 bytes in total (the indexer's _MAX_FE_MSG_SIZE_BYTES), P1 times >= 2^24 s
+        [['m', P, 0, 8 * 2 ** 24 + 3], ['m', UNK1, 0, None, 1100], ['m', P, 1, 8 * 2 ** 24 + 11], ['m', UNK2, 1, None, 4096 - 24],
+         ['m', UNK1, 0, None, 16383 - 24], ['m', P, 0, 8 * 2 ** 24 + 19], ['m', UNK2, 0, None, 16384 - 24], ['m', E, 0, None]],
     ]
 
 
